@@ -46,8 +46,16 @@ def c03(tier, seed, only=None):
     mons = [B + "Quiescence"]
     jobs = []
     fams = ("F2", "F4", "F5")
-    jobs += _ctrl_jobs(tier, mons, dict(pause=1, resume=1, cancel=1, horizon=60), families=fams)
+    jobs += _ctrl_jobs(tier, mons, dict(pause=1, resume=1, cancel=1, horizon=60, resume_only_at_rest=False),
+                       families=fams)
     jobs += _ctrl_jobs(tier, mons, dict(rerun=1, rerun_mode="tasks", horizon=60), families=fams)
+    jobs += _interim_jobs(tier, mons, dict(pause=1, resume=1, cancel=1, horizon=60))
+    xo = [["timeout", None], ["abandoned", None]]
+    for s in gen.f4_all(tier) + gen.f5_all(tier):
+        if tier == "quick" and gen.is_big(s):
+            continue
+        jobs.append(job(s, dict(rerun=1, rerun_mode="tasks", extra_outcomes=xo, horizon=60,
+                                dev=3 if tier == "quick" else 4), mons))
     if tier != "quick":
         jobs += _ctrl_jobs(tier, mons, dict(hold=1, pause=1, resume=1, horizon=60, dev=4), families=fams)
     for s in gen.f3_all():
@@ -265,7 +273,8 @@ def _ctrl_jobs(tier, mons, base_cfg, families=("F2", "F4", "F5"), big_dev=None):
 def c02(tier, seed, only=None):
     t0 = time.time()
     mons = [SM + "TruthfulStatus"]
-    jobs = _ctrl_jobs(tier, mons, dict(pause=1, resume=1, cancel=1, horizon=60))
+    jobs = _ctrl_jobs(tier, mons, dict(pause=1, resume=1, cancel=1, horizon=60, resume_only_at_rest=False))
+    jobs += _interim_jobs(tier, mons, dict(pause=1, resume=1, cancel=1, horizon=60))
     jobs = _filter(jobs, only)
     results = runner.run_jobs(jobs, seed=seed)
     rule = (
@@ -296,6 +305,7 @@ def c10(tier, seed, only=None):
     t0 = time.time()
     mons = [SM + "CancelStops"]
     jobs = _ctrl_jobs(tier, mons, dict(pause=1, resume=1, cancel=1, render=True, horizon=60))
+    jobs += _interim_jobs(tier, mons, dict(cancel=1, horizon=60))
     jobs = _filter(jobs, only)
     results = runner.run_jobs(jobs, seed=seed)
     rule = (
@@ -378,6 +388,7 @@ def c12(tier, seed, only=None):
         jobs.append(job(s, cfg, mons))
     for s in gen.f4_result(tier):
         jobs.append(job(s, dict(horizon=60), [FT + "ItemsResult"]))
+    jobs += [j for j in _interim_jobs(tier, mons, dict(pause=1, resume=1, cancel=1, horizon=60)) if "/items" in j["scn"]["name"]]
     for s in gen.f3_all(names=[n for n in gen.f3_fixture_names() if "items" in n]):
         jobs.append(job(s, dict(horizon=80, dev=2 if tier == "quick" else 3, pause=1, resume=1, cancel=1), mons))
     jobs = _filter(jobs, only)
@@ -662,3 +673,17 @@ def c19(tier, seed, only=None):
 
 
 REGISTRY.update({"C19": c19})
+
+
+# interim action statuses (pausing / canceling reported by an in-flight action) -----------------
+def _interim_jobs(tier, mons, base_cfg):
+    """Small definitions with one or two intermediate status reports per history."""
+    jobs = []
+    names = ("F2/seq2", "F2/handler-noop-par", "F2/fanin-m2-jall-SS-l1", "F4/items-n2-k2-alone", "F4/items-n3-k2-alone",
+             "F4/items-n2-knone-then", "F5/retry-c1-dflt-seq")
+    for s in gen.f2_all(tier) + gen.f4_all(tier) + gen.f5_all(tier):
+        if s.name in names or (tier != "quick" and not gen.is_big(s)):
+            cfg = dict(base_cfg)
+            cfg["interim"] = 2 if tier == "quick" else 3
+            jobs.append(job(s, cfg, mons))
+    return jobs
